@@ -6,7 +6,7 @@ import Fcgi.Props.C05
 # Helper lemmas about the poll-level `Request` model: `poll_output` / `poll_input` (for C09)
 
 * the scripted transport: what one `read` / `write` does (`tread_spec`, `twrite_spec`);
-* `outLoop_spec`, `pollOutput_spec`: the reply buffer is written front to back, the lock protocol;
+* `outLoop_flush`, `pollOutput_spec`: the reply buffer is written front to back, the lock protocol;
 * `Tr`: the effect of a poll on the stream parser *is* a legal operation history (`Str.Op`) whose fed
   bytes are exactly the bytes taken from the transport and whose `consume_output`s are exactly the
   bytes written to it;
@@ -142,7 +142,7 @@ theorem consumeOutput_add (p : Parser) (a b : Nat) :
 /-- The write loop of `poll_output` with enough fuel: some prefix `output.take k` of the reply
 buffer was written (`consume_output(k)` in total), in order; `Ready` iff the buffer is now empty;
 the model's fuel guard is never reached. -/
-theorem outLoop_spec : ∀ (fuel : Nat) (sp : Parser) (t : Transport), sp.output.length < fuel →
+theorem outLoop_flush : ∀ (fuel : Nat) (sp : Parser) (t : Transport), sp.output.length < fuel →
     ∀ sp' t' res, outLoop fuel sp t = (sp', t', res) →
     ∃ k, sp' = sp.consumeOutput k ∧ t'.wlog = t.wlog ++ sp.output.take k ∧ RFrame t t' ∧
       (res = .ready → sp'.output = []) ∧ (res ≠ .ready → sp'.output ≠ []) ∧
@@ -255,7 +255,7 @@ theorem pollOutput_spec {r : AReq} {m : MutexSt} {t : Transport} {r' : AReq} {m'
     rcases lockPoll_req hl with hq | ⟨hq, i, hi⟩
     · simp only [hq, Bool.not_true, Bool.false_eq_true, if_false] at h
       rcases ho : outLoop (r.sp.output.length + 1) r.sp t with ⟨sp1, t1, o⟩
-      obtain ⟨k, h1, h2, h3, h4, h5, h6⟩ := outLoop_spec _ r.sp t (Nat.lt_succ_self _) sp1 t1 o ho
+      obtain ⟨k, h1, h2, h3, h4, h5, h6⟩ := outLoop_flush _ r.sp t (Nat.lt_succ_self _) sp1 t1 o ho
       rw [ho] at h
       cases o with
       | ready =>
@@ -913,12 +913,12 @@ theorem setStream_last_ok {p : Parser} (hinv : SInv p) (hs : p.stream ≠ none) 
 
 /-- `writeable` is set whenever no stream is active, and whenever stream data of the final stream
 is buffered. -/
-def WInv (r : AReq) : Prop :=
+def WriteableInv (r : AReq) : Prop :=
   (r.sp.stream = none → r.writeable = true) ∧
   (r.sp.parsed ≠ [] → r.isFinalStream = true → r.writeable = true)
 
 theorem new_winv (cap : Nat) (req : Req.Request) (input : Bytes) (mc : Nat) :
-    WInv (AReq.new (Parser.fromParser cap req input mc)) := by
+    WriteableInv (AReq.new (Parser.fromParser cap req input mc)) := by
   refine ⟨fun h => ?_, fun h => absurd rfl h⟩
   simp only [AReq.new, Parser.fromParser] at h ⊢
   unfold nextInputStream at h
@@ -966,8 +966,8 @@ theorem setStream_none_iff (r : AReq) (s : Nat) :
 
 /-- `set_stream` keeps all invariants and never resets `writeable`. -/
 theorem setStream_inv {r r' : AReq} {s : Nat} {m : MutexSt} (h : r.setStream s = some r')
-    (hinv : AInv r) (hl : LockInv r m) (hw : WInv r) :
-    AInv r' ∧ LockInv r' m ∧ WInv r' ∧ r'.writeable = r.writeable ∧ r'.lock = r.lock := by
+    (hinv : AInv r) (hl : LockInv r m) (hw : WriteableInv r) :
+    AInv r' ∧ LockInv r' m ∧ WriteableInv r' ∧ r'.writeable = r.writeable ∧ r'.lock = r.lock := by
   obtain ⟨sp', hs, rfl⟩ := (setStream_some_iff r s _).mp h
   obtain ⟨h1, h2, h3, h4, -, h6⟩ := setStream_ok_frame hs
   refine ⟨⟨C03S.setStream_inv hinv.1 hs, by show 24 ≤ sp'.cap; rw [h3]; exact hinv.2⟩,
@@ -1014,7 +1014,7 @@ particular `set_stream(final)` is never rejected —, keeps the invariants, neve
 `writeable`, and completes only with `writeable` set. -/
 theorem writeablePoll_spec {r : AReq} {started : Bool} {m : MutexSt} {t : Transport} {r' : AReq}
     {b : Bool} {m' : MutexSt} {t' : Transport} {res : ORes} (hinv : AInv r) (hl : LockInv r m)
-    (hw : WInv r) (hstart : started = true → r.isFinalStream = true)
+    (hw : WriteableInv r) (hstart : started = true → r.isFinalStream = true)
     (h : r.writeablePoll started m t = (r', b, m', t', res)) :
     b = true ∧ AInv r' ∧ LockInv r' m' ∧ (∀ s, res ≠ .panic s) ∧
       (r.writeable = true → r'.writeable = true) ∧ (res = .ready → r'.writeable = true) ∧
@@ -1388,13 +1388,13 @@ theorem pollInput_eof_enters {r : AReq} {n : Nat} {m : MutexSt} {t : Transport} 
     injection h with h _
     omega
 
-/-- `poll_input` keeps `WInv`, except that a poll that fails may leave stream data of the final
+/-- `poll_input` keeps `WriteableInv`, except that a poll that fails may leave stream data of the final
 stream buffered without `writeable` having been set (the parser had delivered it before it hit the
 fatal header). -/
 theorem pollInput_winv {r : AReq} {dest : Option Nat} {m : MutexSt} {t : Transport} {r' : AReq}
-    {m' : MutexSt} {t' : Transport} {res : IRes} (hinv : AInv r) (hl : LockInv r m) (hw : WInv r)
+    {m' : MutexSt} {t' : Transport} {res : IRes} (hinv : AInv r) (hl : LockInv r m) (hw : WriteableInv r)
     (h : r.pollInput dest m t = (r', m', t', res)) :
-    (r'.sp.stream = none → r'.writeable = true) ∧ ((∀ e, res ≠ .err e) → WInv r') := by
+    (r'.sp.stream = none → r'.writeable = true) ∧ ((∀ e, res ≠ .err e) → WriteableInv r') := by
   obtain ⟨-, hpo, hlo⟩ := pollInput_spec hinv hl h
   have h1 : r'.sp.stream = none → r'.writeable = true := fun hx =>
     hpo.wmono (hw.1 (by rw [← hpo.strm]; exact hx))
